@@ -40,23 +40,23 @@ def run(rep, tier):
     cfgs = ["x86", "x86-rayon"] if tier == "quick" else ["x86", "x86-rayon", "arm", "wasm"]
     if tier == "thorough":
         rep.set_cfg("witness")
-        witness.report(rep, "C03.types", ["W1", "W2", "W7"])
+        rep.call(witness.report, rep, "C03.types", ["W1", "W2", "W7"])
     for cfg, prog in programs(cfgs):
         rep.set_cfg(cfg)
         if cfg == "wasm":
             # 32-bit usize: arithmetic is informational only (DESIGN Appendix B); kernels are checked
-            loadwidth.guard_adequacy(rep, prog, "C03.loadwidth", loadwidth.FLOOR.get(cfg, 50))
+            rep.call(loadwidth.guard_adequacy, rep, prog, "C03.loadwidth", loadwidth.FLOOR.get(cfg, 50))
             continue
-        n = arith(rep, prog, "C03.arith")
+        n = rep.call(arith, rep, prog, "C03.arith") or 0
         rep.floor("C03.arith", "arithmetic asserts in scope", n, 100)
-        validators.crop_f64(rep, prog, "C03.crop-validate")
-        validators.crop_u32(rep, prog, "C03.crop-validate-u32")
-        validators.constructors_validate(rep, prog, "C03.invariants")
-        index_rules.nearest_index(rep, prog, "C03.index-nearest")
-        index_rules.cropped_row_slices(rep, prog, "C03.index-rows")
-        index_rules.table_index(rep, prog, "C03.table-index")
-        index_rules.unwraps(rep, prog, "C03.unwrap")
-        dispatch_rules.t_precision(rep, prog, "C03.precision", report_empty=False)
-        dispatch_rules.t_feature(rep, prog, "C03.feature")
+        rep.call(validators.crop_f64, rep, prog, "C03.crop-validate")
+        rep.call(validators.crop_u32, rep, prog, "C03.crop-validate-u32")
+        rep.call(validators.constructors_validate, rep, prog, "C03.invariants")
+        rep.call(index_rules.nearest_index, rep, prog, "C03.index-nearest")
+        rep.call(index_rules.cropped_row_slices, rep, prog, "C03.index-rows")
+        rep.call(index_rules.table_index, rep, prog, "C03.table-index")
+        rep.call(index_rules.unwraps, rep, prog, "C03.unwrap")
+        rep.call(dispatch_rules.t_precision, rep, prog, "C03.precision", report_empty=False)
+        rep.call(dispatch_rules.t_feature, rep, prog, "C03.feature")
         if cfg != "x86-rayon":
-            loadwidth.guard_adequacy(rep, prog, "C03.loadwidth", loadwidth.FLOOR.get(cfg, 50))
+            rep.call(loadwidth.guard_adequacy, rep, prog, "C03.loadwidth", loadwidth.FLOOR.get(cfg, 50))
